@@ -23,7 +23,14 @@ def run_case(case, repo):
         if res.returncode != 0:
             return name, "STALE", res.stdout[-200:]
         fired, rules = {}, {}
-        for pid in (PROPS if own is None or ALL_FOR_SEEDS else [own]):
+        if own is None or ALL_FOR_SEEDS:
+            from tools_common import run_all
+
+            for pid, (code, text) in run_all(tmp, os.path.join(tmp, "ev")).items():
+                if code != 0:
+                    fired[pid] = code
+                    rules[pid] = sorted(set(re.findall(r"^  (C\d\d-R\d+) at ", text, re.M)))
+        for pid in ([] if own is None or ALL_FOR_SEEDS else [own]):
             env = dict(os.environ, VERIF_EVIDENCE_DIR=os.path.join(tmp, "ev"))
             r = subprocess.run(["/venv/bin/python", os.path.join(VERIF, "sa", "check.py"), pid, "--repo", tmp], capture_output=True, text=True, env=env, timeout=300)
             if r.returncode != 0:
